@@ -275,7 +275,11 @@ impl<'a> Flex<'a> {
                             align: Align::default(),
                         })
                     } else {
-                        let flex = value.get("flex").map(f64::deserialize).transpose()?;
+                        let flex = value
+                            .get("flex")
+                            .map(f64::deserialize)
+                            .transpose()?
+                            .and_then(|flex| (flex.is_finite() && flex > 0.0).then_some(flex));
                         let align = value
                             .get("align")
                             .map(Align::deserialize)
